@@ -147,7 +147,8 @@ def gen_input(rng, P: Pools, name, shell):
             ib.pop("position", None)
             inner["inputBinding"] = ib
         schema = {"type": {"type": "array", "items": inner}}
-        if bound:
+        if bound or ("inputBinding" in inner and not W):
+            # R: bound inner arrays only below a bound input, see mechanism C30/unbound-array-items-ordered-by-name
             schema["inputBinding"] = gen_binding(rng, P, "x", shell, composite=True, allow_valuefrom=False)
         v = [[P.item_str() for _ in range(rng.randint(0, 2))] for _ in range(rng.randint(0, 2))]
         if v and not any(v) and not W:
@@ -168,7 +169,9 @@ def gen_input(rng, P: Pools, name, shell):
         # R: an array with bound items is always bound itself, see mechanism C30/unbound-array-items-ordered-by-name
         schema["inputBinding"] = gen_binding(rng, P, t, shell, composite=is_array)
         if item_binding and not W:
-            schema["inputBinding"].pop("itemSeparator", None)  # R: see mechanism C30/item-bindings-dropped-with-itemseparator
+            schema["inputBinding"].pop("itemSeparator", None)  # R: see mechanism C30/item-bindings-joined-with-itemseparator
+            if schema["inputBinding"].get("shellQuote") is True:
+                del schema["inputBinding"]["shellQuote"]  # R: see mechanism C30/bound-items-quoted-twice-with-explicit-shellquote
     if t == "string":
         v = P.scalar_str()
     elif t in ("int", "long"):
